@@ -7,21 +7,21 @@ Require Import Lexpr.Props.C01.
 
 Check (C01_roundtrip_partial :
   forall ryu alpha fast std_parse k v,
-  rt_ok v -> (rdepth v <= 127)%nat ->
+  rt_ok alpha v -> (rdepth v <= 127)%nat ->
   from_trait default_ro alpha fast std_parse k (bytes_events (print0 ryu v)) = POk v).
 
 Check (C01_roundtrip_datum_partial :
   forall ryu alpha fast std_parse k v,
-  rt_ok v -> (rdepth v <= 127)%nat ->
+  rt_ok alpha v -> (rdepth v <= 127)%nat ->
   exists d, datum_from_trait default_ro alpha fast std_parse k (bytes_events (print0 ryu v)) = POk d /\ dvalue d = v).
 
 Check (C01_reads_exactly_partial :
   forall ryu alpha fast std_parse v fuel r D rest,
-  rt_ok v -> N.of_nat (rdepth v) < D -> D <= 128 -> (length (print0 ryu v) + 16 <= fuel)%nat ->
+  rt_ok alpha v -> N.of_nat (rdepth v) < D -> D <= 128 -> (length (print0 ryu v) + 16 <= fuel)%nat ->
   ReaderProofs.at_bytes r (print0 ryu v ++ rest) -> delim_ok rest ->
   exists r', next_value default_ro alpha fast std_parse fuel (mkp r D) = (POk (Some v), mkp r' D) /\
              ReaderProofs.at_bytes r' rest /\ rk r' = rk r).
 
 Check (C01_nonvacuous :
-  rt_ok c01_sample /\ (rdepth c01_sample <= 127)%nat /\
+  rt_ok (fun _ => true) c01_sample /\ (rdepth c01_sample <= 127)%nat /\
   from_trait default_ro (fun _ => true) true dec_to_f64 SrcIo (bytes_events (print0 (fun _ => []) c01_sample)) = POk c01_sample).
